@@ -866,6 +866,12 @@ class Flow:
             return out
         if txt.startswith('re.'):
             return {('ext', 'match'): None, NONE: None}
+        if txt in ('dict.fromkeys', 'collections.OrderedDict.fromkeys', 'OrderedDict.fromkeys') and e.args:
+            # order-preserving de-duplication
+            site = self.site(f, e, 'dict')
+            self.add(('K', site), self.elements(self.ev(f, e.args[0], env)), 'dict.fromkeys')
+            self.add(('V', site), {NONE: None}, 'dict.fromkeys')
+            return {('dict', site): None}
         vals = self.ev(f, fn, env)
         out = {}
         for v in vals:
